@@ -197,7 +197,17 @@ def run_check(prop, spec, tier, seed, jobs=None):
     exit_code = 0
     os.makedirs(FINDINGS, exist_ok=True)
     nfile = 0
+    # instances of one (property, rule) class that a listed known finding describes are handled apart from the
+    # others, so that a different violation of the same class is still reported
+    split = collections.OrderedDict()
     for (pp, rule), lst in mine.items():
+        kn = [t for t in lst if any(match_known(e, pp, rule, t[2], t[1]) for e in known.get("findings", []))]
+        ot = [t for t in lst if t not in kn]
+        if kn:
+            split[(pp, rule, "known")] = kn
+        if ot:
+            split[(pp, rule, "other")] = ot
+    for (pp, rule, _grp), lst in split.items():
         lst.sort(key=lambda t: t[0])
         handled = False
         for (size, plan, detail) in lst[:3]:
